@@ -42,11 +42,16 @@ def eval_case(case):
     cfg_out = {}
     try:
         sb.project.write_simple_json(path)
-        st = BaseSubProjectTask(file_path=path, name="sub")
+        explicit = bool(case.get("explicit_path"))
+        # the file is named at construction, or only in the call (the task then keeps pointing elsewhere)
+        st = BaseSubProjectTask(file_path=(path + ".elsewhere" if explicit else path), name="sub")
         before = dict(vars(st))
         with warnings.catch_warnings(record=True) as wl:
             warnings.simplefilter("always")
-            st.set_all_attributes_from_json(remove_absence_time_list=bool(case["remove_abs"]))
+            if explicit:
+                st.set_all_attributes_from_json(file_path=path, remove_absence_time_list=bool(case["remove_abs"]))
+            else:
+                st.set_all_attributes_from_json(remove_absence_time_list=bool(case["remove_abs"]))
         wl = [w for w in wl if "not simulated" in str(w.message)]      # the refusal warning (not e.g. ResourceWarning)
         cfg_out = {"status": status, "time": d_full, "abs": list(op.get("abs", [])), "remove": bool(case["remove_abs"]),
                    "su": su, "pu": pu, "warned": bool(wl)}
@@ -153,6 +158,7 @@ def gen_cases(rng, n):
         units = [15, 30, 60, 120, 240, 480] if rng.random() < 0.8 else [20, 60, 180, 45, 100]
         npre = rng.choice([0, 1, 1, 2])
         cases.append({"subproject": c, "su": rng.choice(units), "pu": rng.choice(units), "remove_abs": rng.random() < 0.5,
+                      "explicit_path": rng.random() < 0.4,
                       "pre": [gen.qs(rng.choice([Fraction(1), Fraction(2), Fraction(1, 2), Fraction(0)])) for _ in range(npre)],
                       "pre_kinds": [rng.choice([0, 0, 1]) for _ in range(npre)], "pos": rng.randrange(0, 5),
                       "parent_abs": sorted(set(rng.randrange(0, 12) for _ in range(rng.choice([0, 0, 1, 2, 3])))),
